@@ -42,6 +42,8 @@ type VerifCoordinator struct {
 	SupplierErrors int
 	SupplierCalls  int
 	LastSupplierErr error
+	// SupplierErrNS: namespace -> number of failed ensemble selections during the last VerifConfigChanged.
+	SupplierErrNS map[string]int
 }
 
 func VerifNewCoordinator(meta metadata.Provider, algo selectors.LoadRatioAlgorithm) *VerifCoordinator {
@@ -90,11 +92,13 @@ func (v *VerifCoordinator) VerifConfigChanged(cfg model.ClusterConfig) (shardsTo
 	c := v.c
 	newConfig := c.configResource.Load()
 	v.SupplierErrors, v.SupplierCalls, v.LastSupplierErr = 0, 0, nil
+	v.SupplierErrNS = map[string]int{}
 	supplier := func(ns *model.NamespaceConfig, st *model.ClusterStatus) ([]model.Server, error) {
 		v.SupplierCalls++
 		e, err := c.selectNewEnsemble(ns, st)
 		if err != nil {
 			v.SupplierErrors++
+			v.SupplierErrNS[ns.Name]++
 			v.LastSupplierErr = err
 		}
 		return e, err
